@@ -516,6 +516,9 @@ func genScalarCall(t *rapid.T, mg *msgGen) *ScalarCase {
 // perCallFn is the function registered for one call; in the C12 process it
 // also records the strings the library hands to it.
 func perCallFn(n string) valid.CommonValidFn {
+	if f, ok := sizeAliasFns[n]; ok {
+		return f
+	}
 	if fnReceived != nil {
 		return recordingFn("call", n)
 	}
